@@ -67,6 +67,29 @@ fn main() {
 			let w: usize = args[4].parse().unwrap_or(4);
 			std::process::exit(checks::digests(&args[2], seed, runs, w));
 		}
+		"families" => {
+			// timing/debug aid: run every family a few times on a fresh host
+			use jrsim::{pool, rng::Rng};
+			let limit: Option<usize> = args.get(2).and_then(|s| s.parse().ok());
+			for fam in pool::FAMILIES {
+				let mut rng = Rng::new(seed);
+				for _ in 0..6 {
+					let p = pool::gen_family(&mut rng, fam);
+					let t = Instant::now();
+					let p2 = p.clone();
+					let o = std::thread::Builder::new()
+						.stack_size(16 << 20)
+						.spawn(move || pool::Host::new().run(&p2, limit))
+						.expect("spawn")
+						.join();
+					let dt = t.elapsed().as_secs_f64();
+					match o {
+						Ok(o) => println!("{fam:<24} {dt:>8.4}s ok={} class={} {:?} <- {}", o.ok, o.class, o.text.chars().take(80).collect::<String>(), p.code.chars().take(70).collect::<String>()),
+						Err(_) => println!("{fam:<24} {dt:>8.4}s PANIC <- {}", p.code),
+					}
+				}
+			}
+		}
 		"worker" => std::process::exit(checks::worker(&args[2..])),
 		_ => usage(),
 	}
